@@ -23,6 +23,7 @@ import GitAiModel.Driver.HookMode
 import GitAiModel.Driver.SquashNote
 import GitAiModel.Driver.LineStep
 import GitAiModel.Driver.Snapshot
+import GitAiModel.Driver.Discard
 namespace GitAi.Driver
 open Lean
 
@@ -47,7 +48,8 @@ def handlers : List (String → Json → Option (Except String Json)) := [
   WrapperD.handle,
   HookModeD.handle,
   SquashNoteD.handle,
-  SnapshotD.handle
+  SnapshotD.handle,
+  DiscardD.handle
 ]
 
 end GitAi.Driver
